@@ -60,7 +60,7 @@ impl<'a> BodyStructParser<'a> {
                 self.map.insert(vec, node);
 
                 for (i, n) in bodies.iter().enumerate() {
-                    self.iter += i as u32;
+                    self.iter = i as u32 + 1;
                     self.prefix.push(self.iter);
                     self.parse(n);
                     self.prefix.pop();
